@@ -16,6 +16,9 @@ func init() { Registry["C01"] = checkC01 }
 func checkC01(c *Ctx) {
 	c.R.NotCover = append(c.R.NotCover, "the matching relation itself (C06)", "payload identity through the rings (C14)", "exactly-once under interleavings of subscribe and publish (schedules)")
 	c.useRules(ruleP2, ruleP4, ruleP9, ruleP5, ruleP8, ruleL1)
+	c.resultListsReset()
+	c.wildcardCoversParent()
+	c.endOfLevelsSignal()
 	r := c.Roles()
 	if !c.Need("hand-over (fan-out)", r.HandOver, "teardown", r.Stop, "start", r.Start) {
 		return
